@@ -26,24 +26,24 @@ theorem led_inv_init : LedInv ({} : Led) := by
   simp [LedInv]
 
 theorem led_inv_step (s : Led) (op : LedOp K) (h : LedInv s) : LedInv (Led.step s op).st := by
-  sorry
+  exact Lemmas.C19.ledInv_step s op h
 
 /-- every reachable Led state satisfies the invariant, successful or failing calls alike -/
 theorem led_inv_run (ops : List (LedOp K)) : LedInv (Led.run ops) := by
-  sorry
+  exact Lemmas.C19.ledInv_run ops
 
 /-- a call that raises for an invalid scalar argument leaves the object exactly as it was
     (`flash_pattern` takes a sequence and is excluded, as in the property) -/
 theorem led_atomic (s : Led) (op : LedOp K) (e : Exc)
     (hfp : ∀ p d, op ≠ .flashPattern p d) (h : (Led.step s op).res = .raise e) :
     (Led.step s op).st = s := by
-  sorry
+  exact Lemmas.C19.led_atomic s op e hfp h
 
 /-- `blink` sleeps exactly `2 * times` times, each for `duration_ms` -/
 theorem led_blink_sleeps (s : Led) (d : Val K) (n : Int)
     (h : (Led.step s (.blink d (.int n))).res = .ok) :
     (Led.step s (.blink d (.int n))).sleeps = List.replicate (2 * n.toNat) d ∧ 0 < n := by
-  sorry
+  exact Lemmas.C19.led_blink_sleeps s d n h
 
 example : (Led.step ({} : Led) (.blink (.int 5) (.int 2) : LedOp K)).res = .ok := by
   simp [Led.step, Val.lt, Val.le]
@@ -59,27 +59,27 @@ theorem rgb_inv_init : RGBInv ({} : RGB) := by
   simp [RGBInv]
 
 theorem rgb_inv_step (s : RGB) (op : RGBOp K) (h : RGBInv s) : RGBInv (RGB.step s op).st := by
-  sorry
+  exact Lemmas.C19.rgb_inv_step s op h
 
 theorem rgb_inv_run (ops : List (RGBOp K)) : RGBInv (RGB.run ops) := by
-  sorry
+  exact Lemmas.C19.rgb_inv_run ops
 
 theorem rgb_atomic (s : RGB) (op : RGBOp K) (e : Exc) (h : (RGB.step s op).res = .raise e) :
     (RGB.step s op).st = s := by
-  sorry
+  exact Lemmas.C19.rgb_not_ok s op (by rw [h]; exact Res.noConfusion)
 
 /-- a successful fade ends exactly on the target -/
 theorem rgb_fade_target (s : RGB) (r g b d n : Val K) (t : Color)
     (ht : RGB.triple r g b = .ok t) (h : (RGB.step s (.fade r g b d n)).res = .ok) :
     (RGB.step s (.fade r g b d n)).st.color = t := by
-  sorry
+  exact Lemmas.C19.rgb_fade_target s r g b d n t ht h
 
 /-- a stepped fade makes exactly `steps` colour updates -/
 theorem rgb_fade_steps (s : RGB) (r g b d : Val K) (n : Int) (t : Color)
     (ht : RGB.triple r g b = .ok t) (h : (RGB.step s (.fade r g b d (.int n))).res = .ok)
     (hd : Val.isZero d = false) (hne : s.color ≠ t) :
     (RGB.step s (.fade r g b d (.int n))).trace.length = n.toNat ∧ 0 < n := by
-  sorry
+  exact Lemmas.C19.rgb_fade_steps s r g b d n t ht h hd hne
 
 /-- channel-wise monotone: each channel of the colours visited (starting colour first) is
     non-decreasing or non-increasing -/
@@ -90,13 +90,13 @@ theorem rgb_fade_monotone (s : RGB) (r g b d n : Val K)
     (h : (RGB.step s (.fade r g b d n)).res = .ok) :
     let l := s.color :: (RGB.step s (.fade r g b d n)).trace
     MonoChan (·.1) l ∧ MonoChan (·.2.1) l ∧ MonoChan (·.2.2) l := by
-  sorry
+  exact Lemmas.C19.rgb_fade_monotone s r g b d n h
 
 /-- a fade never sleeps longer than the requested duration -/
 theorem rgb_fade_sleep_le (s : RGB) (r g b d n : Val K)
     (h : (RGB.step s (.fade r g b d n)).res = .ok) :
     (((RGB.step s (.fade r g b d n)).sleeps.map Val.toF).sum : K) ≤ d.toF := by
-  sorry
+  exact Lemmas.C19.rgb_fade_sleep_le s r g b d n h
 
 /-- a successful blink ends on the original colour and sleeps `2 * times` times -/
 theorem rgb_blink_restores (s : RGB) (r g b t d : Val K)
@@ -104,10 +104,10 @@ theorem rgb_blink_restores (s : RGB) (r g b t d : Val K)
     (RGB.step s (.blink r g b t d)).st.color = s.color ∧
     ∃ n : Int, t = .int n ∧ 0 < n ∧
       (RGB.step s (.blink r g b t d)).sleeps = List.replicate (2 * n.toNat) d := by
-  sorry
+  exact Lemmas.C19.rgb_blink_restores s r g b t d h
 
 example : (RGB.step ({} : RGB) (.fade (.int 1) (.int 0) (.int 0) (.int 100) (.int 2) : RGBOp K)).res = .ok := by
-  sorry
+  simp [RGB.step, Val.lt, Val.le, RGB.triple, RGB.component, bind, Except.bind, pure, Except.pure, Val.isZero]
 
 /-! ## Servo -/
 
@@ -118,29 +118,30 @@ def ServoInv (s : Servo K) : Prop :=
 
 theorem servo_inv_create (a b c d : Val K) (s : Servo K) (h : Servo.create a b c d = .ok s) :
     ServoInv s := by
-  sorry
+  exact Lemmas.C19.servo_inv_create a b c d s h
 
 theorem servo_inv_step (s : Servo K) (op : ServoOp K) (h : ServoInv s) :
     ServoInv (Servo.step s op).1 := by
-  sorry
+  exact Lemmas.C19.servo_inv_step s op h
 
 theorem servo_inv_run (s : Servo K) (ops : List (ServoOp K)) (h : ServoInv s) :
     ServoInv (Servo.run s ops) := by
-  sorry
+  exact Lemmas.C19.servo_inv_run s ops h
 
 /-- write/read and write_us/read_us round-trip -/
 theorem servo_roundtrip (s : Servo K) (v : Val K) :
     ((Servo.step s (.write v)).2 = .ok → (Servo.step s (.write v)).1.angle = v.toF) ∧
     ((Servo.step s (.writeUs v)).2 = .ok → (Servo.step s (.writeUs v)).1.pulse = v.toF) := by
-  sorry
+  exact Lemmas.C19.servo_roundtrip s v
 
 theorem servo_atomic (s : Servo K) (op : ServoOp K) (e : Exc) (h : (Servo.step s op).2 = .raise e) :
     (Servo.step s op).1 = s := by
-  sorry
+  exact Lemmas.C19.servo_atomic s op e h
 
 example : ∃ s : Servo K, Servo.create (.int 0) (.int 180) (.int 544) (.int 2400) = .ok s ∧
     (Servo.step s (.write (.int 90))).2 = .ok := by
-  sorry
+  refine ⟨_, by simp [Servo.create, Val.le]; rfl, ?_⟩
+  norm_num [Servo.step, Val.between, Val.le, Val.toF]
 
 /-! ## DCMotor -/
 
@@ -150,14 +151,14 @@ def MotorInv (s : Motor K) : Prop :=
   (s.mode = .drive ↔ s.applied ≠ 0)
 
 theorem motor_inv_init : MotorInv (Motor.init : Motor K) := by
-  sorry
+  exact Lemmas.C19.motorInv_init
 
 theorem motor_inv_step (s : Motor K) (op : MotorOp K) (h : MotorInv s) :
     MotorInv (Motor.step s op).st := by
-  sorry
+  exact Lemmas.C19.motor_inv_step s op h
 
 theorem motor_inv_run (ops : List (MotorOp K)) : MotorInv (Motor.run ops) := by
-  sorry
+  exact Lemmas.C19.motor_inv_run ops
 
 /-- mode law: after a successful command the mode is `drive` exactly when the applied speed is
     non-zero, otherwise `brake` if that command was stop()/run_for() and `coast` in every other case -/
@@ -169,17 +170,17 @@ theorem motor_mode_law (s : Motor K) (op : MotorOp K) (h : MotorInv s)
         | .stop => .brake
         | .runFor _ _ => .brake
         | _ => .coast := by
-  sorry
+  exact Lemmas.C19.motor_mode_law s op h hok
 
 theorem motor_atomic (s : Motor K) (op : MotorOp K) (e : Exc) (h : (Motor.step s op).res = .raise e) :
     (Motor.step s op).st = s := by
-  sorry
+  exact Lemmas.C19.motor_atomic s op e h
 
 /-- invert() is an involution on direction, speed and applied speed -/
 theorem motor_invert_involution (s : Motor K) (h : MotorInv s) :
     let s2 := (Motor.step (Motor.step s .invert).st .invert).st
     s2.inverted = s.inverted ∧ s2.speed = s.speed ∧ s2.applied = s.applied := by
-  sorry
+  exact Lemmas.C19.motor_invert_involution s h
 
 /-- ramp() makes 20 monotone steps and ends at the clamped target (exact arithmetic) -/
 theorem motor_ramp (s : Motor K) (t d : Val K) (h : MotorInv s)
@@ -188,15 +189,15 @@ theorem motor_ramp (s : Motor K) (t d : Val K) (h : MotorInv s)
     o.st.speed = Motor.clamp t ∧ o.trace.length = 20 ∧
     (List.Pairwise (· ≤ ·) (s.speed :: o.trace) ∨ List.Pairwise (· ≥ ·) (s.speed :: o.trace)) ∧
     ((o.sleeps.map Val.toF).sum : K) ≤ d.toF := by
-  sorry
+  exact Lemmas.C19.motor_ramp s t d h hok
 
 /-- run_for() ends braked at speed 0 having slept exactly `duration_ms` once -/
 theorem motor_run_for (s : Motor K) (d v : Val K) (hok : (Motor.step s (.runFor d v)).res = .ok) :
     let o := Motor.step s (.runFor d v)
     o.st.mode = .brake ∧ o.st.speed = 0 ∧ o.st.applied = 0 ∧ o.sleeps = [d] := by
-  sorry
+  exact Lemmas.C19.motor_run_for s d v hok
 
 example : (Motor.step (Motor.init : Motor K) (.ramp (.int 1) (.int 100))).res = .ok := by
-  sorry
+  rw [Lemmas.C19.ramp_st _ _ _ (by simp [Val.lt])]
 
 end Reduino.Props.C19
